@@ -72,7 +72,7 @@ class MACD(Indicator):
         signal = None
         histogram = None
 
-        if self.reading(f"{self.name}_EMA_slow"):
+        if self.reading(f"{self.name}_EMA_slow") is not None:
             macd = self.reading(f"{self.name}_EMA_fast") - self.reading(f"{self.name}_EMA_slow")
 
             # Temp manually inserting MACD to be used by signal EMA calc
